@@ -524,8 +524,9 @@ def run_server(world, plan, base):
         world.start(main())
         world.run_phase()
     finally:
-        os.chdir(cwd)
+        # (stop recording first: going back is the harness's own doing)
         recs = fsaudit.stop()
+        os.chdir(cwd)
 
     after = fsaudit.snapshot(base)
     bad = [r for r in recs if not r[3]]
